@@ -141,7 +141,10 @@ impl ZbsdiffBuilder {
                 control_entries.push(ControlEntry::new(
                     0,
                     extra_chunk_size as i64,
-                    old_pos as i64, // Seek to maintain position tracking
+                    // The seek field is relative to the patcher's current old
+                    // position. Extra data does not consume old data, so the
+                    // patcher must stay where this builder's `old_pos` is.
+                    0,
                 ));
 
                 new_pos += extra_chunk_size;
